@@ -483,7 +483,8 @@ FailC08(T) == Tag("C08", "sum", C08_sum(T)) \cup Tag("C08", "kf", C08_kf(T)) \cu
 FailC09(T) == Tag("C09", "moves", C09_moves(T)) \cup Tag("C09", "over", C09_over(T)) \cup
               Tag("C09", "under", C09_under(T)) \cup Tag("C09", "round", C09_round(T))
 FailC18(T) == Tag("C18", "first", C18_first(T)) \cup Tag("C18", "last", C18_last(T)) \cup
-              Tag("C18", "listed", C18_listed(T)) \cup Tag("C18", "first_nochange", C18_first_nochange(T))
+              Tag("C18", "listed", C18_listed(T)) \cup Tag("C18", "first_nochange", C18_first_nochange(T)) \cup
+              (IF T.outcome = "ok" /\ T.acts[NA(T)].tag = "end" THEN Tag("C18", "final_reported", C01_reported(T)) ELSE {})
 
 (* a count whose post-count assertion failed still has its whole recorded history judged *)
 Ok(T) == T.outcome \in {"ok", "exc"} /\ NA(T) > 0
